@@ -314,3 +314,75 @@ func JSONLine(v interface{}) string {
 	b, _ := json.Marshal(v)
 	return strings.TrimSpace(string(b))
 }
+
+// RawRow is one flat row as returned: key string, period end tick, values by
+// field name.
+type RawRow struct {
+	Key  string             `json:"k"`
+	Per  int64              `json:"p"`
+	Vals map[string]float64 `json:"v"`
+}
+
+// RawQuery runs sql and returns the flat rows undecoded, in the order delivered.
+func (n *Node) RawQuery(sql string, includeMem bool, timeout time.Duration) ([]RawRow, error) {
+	src, err := n.DB.Query(sql, false, nil, includeMem)
+	if err != nil {
+		return nil, err
+	}
+	ctx, cancel := context.WithTimeout(context.Background(), timeout)
+	defer cancel()
+	var names []string
+	var rows []RawRow
+	tick := n.Opts.Tick()
+	iterate := func() error {
+		_, err := src.Iterate(ctx, func(f core.Fields) error {
+			names = f.Names()
+			return nil
+		}, func(row *core.FlatRow) (bool, error) {
+			r := RawRow{Key: KeyString(bytemap.ByteMap(row.Key).AsMap()), Per: int64(time.Unix(0, row.TS).Sub(Epoch) / tick),
+				Vals: map[string]float64{}}
+			for i, v := range row.Values {
+				if i < len(names) {
+					r.Vals[names[i]] = v
+				}
+			}
+			rows = append(rows, r)
+			return true, nil
+		})
+		return err
+	}
+	errCh := make(chan error, 1)
+	go func() { errCh <- iterate() }()
+	select {
+	case err = <-errCh:
+	case <-time.After(timeout + 5*time.Second):
+		return nil, fmt.Errorf("query did not return within %v", timeout+5*time.Second)
+	}
+	return rows, err
+}
+
+// DecodeRaw decodes raw rows of a SELECT * probe into cells.
+func (n *Node) DecodeRaw(raw []RawRow) []Row {
+	var rows []Row
+	for _, r := range raw {
+		for name, v := range r.Vals {
+			f := fieldID(name)
+			if f == "p" {
+				if v != 0 {
+					rows = append(rows, Row{r.Key, r.Per, f, 0, countOf(v)})
+				}
+				continue
+			}
+			ids, counts, ok := Digits(v)
+			if !ok {
+				rows = append(rows, Row{r.Key, r.Per, f, -1, fmt.Sprintf("undecodable:%v", v)})
+				continue
+			}
+			for j := range ids {
+				rows = append(rows, Row{r.Key, r.Per, f, ids[j], counts[j]})
+			}
+		}
+	}
+	sort.Slice(rows, func(i, j int) bool { return fmt.Sprint(rows[i]) < fmt.Sprint(rows[j]) })
+	return rows
+}
